@@ -2,7 +2,7 @@
    correspondence.  ExtrOcamlBasic only (bool, option, list, prod, unit, sumbool -> OCaml's);
    nat, positive, Z stay the extracted inductive types; no Extract Constant. *)
 From Coq Require Import ExtrOcamlBasic.
-From OVM Require Import Kernel.Ops Kernel.InvB.
+From OVM Require Import Kernel.Ops Kernel.InvB Kernel.StatusGC.
 Extraction Language OCaml.
 Set Extraction Optimize.
 Extraction "ovm_model.ml"
@@ -10,4 +10,4 @@ Extraction "ovm_model.ml"
   live_v live_e live_f live_c
   he_from he_to halfface opp
   adjacent_halfface_in_cell
-  inv_report valid_b.
+  inv_report valid_b status_gc.
